@@ -22,6 +22,10 @@ Decided on traces (monitor C13, families sync / syncglitch): that a non-determin
 such a cell/history disagreement within check_distance + 2 calls, first at the frame after it.
 -/
 import GgrsModel.Model.Inventory
+import GgrsModel.Model.Sites.SyncTestSession
+import GgrsModel.Model.Sites.SyncLayer
+import GgrsModel.Model.Sites.InputQueue
+import GgrsModel.Model.Sites.Builder
 import GgrsModel.Properties.C16
 import GgrsModel.Proofs.SyncTestProof
 import GgrsModel.Proofs.SyncTestWindow
